@@ -1110,6 +1110,38 @@ func ruleVD13(c *Ctx) {
 			other = strings.Join(em.Types, "|") + " at " + c.Pos(em.Call.Pos())
 		}
 	}
+	// the plan's commit is the atomic replace (temp + rename), never the in-place append: a plan is one large batch, and
+	// a write(2) cut short (ENOSPC, file-size limit, kill) would leave a prefix of it in the live log
+	commit := c.commitFuncs()
+	nCommit, appendCommit := 0, ""
+	for _, g := range unit {
+		for _, call := range callsIn(g) {
+			cal := call.Common().StaticCallee()
+			if cal == nil || !commit[cal] || inUnit[cal] {
+				continue
+			}
+			nCommit++
+			reachAppend, reachRename := false, false
+			for h := range c.F.TransitiveCallees(cal) {
+				for _, e := range c.F.Effects {
+					if e.Fn != h || e.Path == nil || !c.pathClass(e.Path)[classLOG] {
+						continue
+					}
+					if e.Class == "append-open" && !c.isTempOfLog(e.Path) {
+						reachAppend = true
+					}
+					if e.Class == "rename" {
+						reachRename = true
+					}
+				}
+			}
+			if reachAppend || !reachRename {
+				appendCommit = c.Name(cal) + " at " + c.Pos(call.Pos())
+			}
+		}
+	}
+	c.check(nCommit > 0 && appendCommit == "", fn, "commit-is-atomic-replace", c.FnPos(cb), "the plan is committed by the temp-file + rename primitive only",
+		"the plan is committed through "+appendCommit+", which can append to the live log in place: a short or interrupted write leaves a prefix of the plan (an epic with some of its tasks) although the command failed")
 	c.check(other == "", fn, "only-create-and-link", c.FnPos(cb), "plan emits only new_epic, new_task and link events", "plan also emits "+other+" (a plan's tasks must start todo and unclaimed)")
 	if epic == nil || task == nil {
 		c.bad(fn, "epic-and-tasks", c.FnPos(cb), "plan callback lacks a new_epic or a new_task emission")
